@@ -307,17 +307,18 @@ class SgzConverter(SgzReader):
         # In case someone forgot to do this, give them IBM float
         data_sample_format_code = bytes_to_int(
             self.headerbytes[DISK_BLOCK_BYTES+3225: DISK_BLOCK_BYTES+3227])
+        file_header = self.headerbytes[DISK_BLOCK_BYTES: DISK_BLOCK_BYTES + SEGY_FILE_HEADER_BYTES]
         if data_sample_format_code in [1, 5]:
             spec.format = data_sample_format_code
         else:
-            new_headerbytes = bytearray(self.headerbytes)
-            new_headerbytes[DISK_BLOCK_BYTES + 3225: DISK_BLOCK_BYTES + 3227] = int_to_bytes(1)
-            self.headerbytes = bytes(new_headerbytes)
+            # Only the exported file gets the format code, the reader's own copy of the SGZ header stays as it is
+            file_header = bytearray(file_header)
+            file_header[3225: 3227] = int_to_bytes(1)[:2]
             spec.format = 1
 
-        self.write_segy(spec, out_file)
+        self.write_segy(spec, out_file, bytes(file_header))
 
-    def write_segy(self, spec, out_file):
+    def write_segy(self, spec, out_file, file_header=None):
 
         with warnings.catch_warnings():
             # segyio will warn us that out padded cube is not contiguous. This is expected, and safe.
@@ -328,8 +329,10 @@ class SgzConverter(SgzReader):
                 segyfile.trace = [self.get_trace(i) for i in range(self.tracecount)]
                 segyfile.header = [self.regenerate_trace_header(i) for i in range(self.tracecount)]
 
+        if file_header is None:
+            file_header = self.headerbytes[DISK_BLOCK_BYTES: DISK_BLOCK_BYTES + SEGY_FILE_HEADER_BYTES]
         with open(out_file, "r+b") as f:
-            f.write(self.headerbytes[DISK_BLOCK_BYTES: DISK_BLOCK_BYTES + SEGY_FILE_HEADER_BYTES])
+            f.write(file_header)
 
     def convert_to_adv_sgz(self, out_file):
         assert(self.rate == 2)
